@@ -1,2 +1,10 @@
 import TlxVerif.Props.C13
-#print axioms TlxVerif.C13.parent_lt_again
+#print axioms TlxVerif.C13.push_heap
+#print axioms TlxVerif.C13.pop_heap
+#print axioms TlxVerif.C13.build_heap
+#print axioms TlxVerif.C13.top_minimal
+#print axioms TlxVerif.C13.dary_step
+#print axioms TlxVerif.C13.dary_history
+#print axioms TlxVerif.C13.drain_sorted
+#print axioms TlxVerif.C13.weakOrd_prio
+#print axioms TlxVerif.C13.weakOrd_prio_rev
